@@ -44,7 +44,11 @@ FINISH = dict(level="other",
 
 
 def peel(t):
-    """strip casts, newtype wrappers (U32Weight(x), x.0) and transparent conversions"""
+    """strip casts, newtype wrappers (U32Weight(x), x.0) and transparent conversions; fold constant arithmetic"""
+    return fold(_peel_raw(t))
+
+
+def _peel_raw(t):
     while isinstance(t, tuple) and t:
         if t[0] in ("cast", "ref", "deref") and len(t) >= 2 and isinstance(t[-1], tuple):
             t = t[-1]
@@ -57,6 +61,24 @@ def peel(t):
         else:
             break
     return t
+
+
+def fold(t):
+    """constant arithmetic on literals (`u32::MAX - 999`) -> ('int', value) ; other terms unchanged"""
+    t0 = t
+    if isinstance(t, tuple) and t and t[0] == "field" and t[2] == "0" and isinstance(t[1], tuple) and t[1][0] == "bin" and "WithOverflow" in t[1][1]:
+        t = t[1]
+    if isinstance(t, tuple) and t and t[0] == "bin" and len(t) >= 4:
+        a, b = fold(_peel_raw(t[2])), fold(_peel_raw(t[3]))
+        if isinstance(a, tuple) and isinstance(b, tuple) and a and b and a[0] == "int" and b[0] == "int":
+            op = t[1].replace("WithOverflow", "").replace("Unchecked", "")
+            try:
+                v = {"Add": a[1] + b[1], "Sub": a[1] - b[1], "Mul": a[1] * b[1], "Div": a[1] // b[1] if b[1] else None}.get(op)
+            except Exception:
+                v = None
+            if v is not None:
+                return ("int", v, a[2] if len(a) > 2 else None)
+    return t0
 
 
 def is_int(t, v=None):
@@ -86,8 +108,9 @@ def linearise(f, path):
     return Fn(d, f.crate)
 
 
-def piecewise(f, rep):
-    """[(lo, hi, form, path)] — the padding length as a function of the deficit, per feasible path to the `take(n)` call"""
+def piecewise(f, rep, sink="take"):
+    """[(lo, hi, result term, path)] — a value as a function of the one quantity the function's comparisons are about, per
+    feasible path: sink="take" evaluates the count handed to `take(n)`, sink="return" the function's result"""
     T = Terms(f)
     # the deficit: the non-constant operand most switch comparisons are about
     cands = {}
@@ -105,9 +128,9 @@ def piecewise(f, rep):
         return None, None
     dkey = max(cands, key=lambda k: len(cands[k]))
     takes = [cs for cs in f.calls() if cs.name == "take" and len(cs.args) == 2]
-    if len(takes) != 1:
+    if sink == "take" and len(takes) != 1:
         return None, None
-    take = takes[0]
+    take_bb = takes[0].bb if sink == "take" else None
     out = []
     INF = 10 ** 12
 
@@ -115,11 +138,15 @@ def piecewise(f, rep):
         if lo > hi or len(path) > 400:
             return
         path = path + [b]
-        if b == take.bb:
+        if b == take_bb:
             lf = linearise(f, path)
             Tl = Terms(lf)
             n = peel(Tl.operand(lf.blocks[len(path) - 1]["t"]["args"][1]))
             out.append((lo, hi, n, path))
+            return
+        if sink == "return" and f.blocks[b]["t"]["k"] == "return":
+            lf = linearise(f, path)
+            out.append((lo, hi, peel(Terms(lf).local(0)), path))
             return
         t = f.blocks[b]["t"]
         if t["k"] == "switch":
@@ -190,6 +217,13 @@ def form_of(n, dkey):
         return ("sub", peel(b[3])[1])
     if b[0] == "bin" and b[1] in ("Add", "AddWithOverflow") and expr.canon(peel(b[2])) == dkey and is_int(b[3]):
         return ("sub", -peel(b[3])[1])
+    if n[0] == "call" and n[2] == "max" and len(n[3]) == 2:
+        a, c = n[3]
+        if is_int(a):
+            a, c = c, a
+        fa = form_of(a, dkey)
+        if is_int(c) and fa and fa[0] in ("sub", "sat"):
+            return ("max", fa, peel(c)[1])
     return None
 
 
@@ -209,9 +243,81 @@ def need(d):
 
 
 def apply_form(form, d):
+    if form[0] == "max":
+        return max(apply_form(form[1], d), form[2])
     k, v = form
     return v if k == "const" else max(d - v, 0) if k == "sat" else d - v
 
+
+def show_form(form):
+    if form[0] == "max":
+        return "max(%s, %d)" % (show_form(form[1]), form[2])
+    return {"const": "%d", "sat": "max(d - %d, 0)", "sub": "d - %d"}[form[0]] % form[1]
+
+
+
+CONSENSUS_MAX = 4_000_050_000
+
+
+def round_up(F, rep, is_ceil_div):
+    """Cost -> weight: for every cost up to the consensus maximum the result is ceil(milliweight / 1000), and the conversion is
+    monotone over all u32 values.  The function is read as a piecewise table over the milliweight (a conversion that treats
+    values near u32::MAX separately, to mimic a saturating addition, is judged piece by piece)."""
+    f0 = F.fn(W_FROM_COST)
+    if f0 is None:
+        rep.anchor("C19.round", W_FROM_COST)
+        return
+    f = F.inlined(f0)
+    label = "weight(cost) = ceil(milliweight / 1000)"
+    t = peel(Terms(f).local(0))
+    if is_ceil_div(t):
+        rep.ok("C19.round", label, show(t)[:80])
+        return
+    dkey, pieces = piecewise(f, rep, sink="return")
+    if not pieces:
+        rep.violation("C19.round", label, "%s computes %s" % (label, show(t)[:160]), f0.where())
+        return
+    tbl = []
+    for lo, hi, n, _path in pieces:
+        lo, hi = max(lo, 0), min(hi, 2 ** 32 - 1)
+        if lo > hi:
+            continue
+        n = peel(n)
+        if is_int(n):
+            fm_ = ("const", n[1])
+        elif n[0] == "bin" and n[1] == "Div" and is_int(n[2]) and is_int(n[3]) and peel(n[3])[1] != 0:
+            fm_ = ("const", peel(n[2])[1] // peel(n[3])[1])
+        elif is_ceil_div(n):
+            fm_ = ("ceil",)
+        else:
+            rep.violation("C19.round", label, "%s: for milliweights %d..=%d the result is %s, neither the rounded-up quotient nor a constant"
+                          % (label, lo, hi, show(n)[:100]), f0.where())
+            return
+        if (lo, hi, fm_) not in tbl:
+            tbl.append((lo, hi, fm_))
+    tbl.sort()
+
+    def val(fm_, mw):
+        return fm_[1] if fm_[0] == "const" else -(-mw // 1000)
+    cur, prev_v, bad = 0, -1, None
+    for lo, hi, fm_ in tbl:
+        if lo != cur:
+            bad = "the pieces do not partition the u32 range at %d" % cur
+            break
+        for mw in sorted({lo, hi} | ({CONSENSUS_MAX} if lo <= CONSENSUS_MAX <= hi else set())):
+            v = val(fm_, mw)
+            if mw <= CONSENSUS_MAX and v != -(-mw // 1000):
+                bad = "cost %d mWU converts to %d WU, the rounded-up weight is %d" % (mw, v, -(-mw // 1000))
+            if v < prev_v:
+                bad = "not monotone at %d mWU (%d WU after %d WU)" % (mw, v, prev_v)
+            prev_v = v
+        cur = hi + 1
+    if bad is None and cur != 2 ** 32:
+        bad = "no piece covers milliweights from %d" % cur
+    if bad:
+        rep.violation("C19.round", label, "%s: %s" % (label, bad), f0.where())
+    else:
+        rep.ok("C19.round", label, "piecewise: " + "; ".join("%d..=%d: %s" % (lo, hi, "ceil" if fm_[0] == "ceil" else fm_[1]) for lo, hi, fm_ in tbl))
 
 def run(ctx, rep):
     F = ctx.facts("full")
@@ -275,7 +381,7 @@ def run(ctx, rep):
         if t[0] == "call" and t[2] in ("saturating_mul",) and len(t[3]) == 2 and is_int(t[3][1], 1000):
             return 1 in vcc.param_roots(t[3][0], fm)
         return False    # a plain `* 1000` overflows for weights above u32::MAX / 1000
-    conv(W_FROM_COST, "weight(cost) = ceil(milliweight / 1000)", is_ceil_div)
+    round_up(F, rep, is_ceil_div)
     conv(COST_FROM_W, "cost(weight) = 1000 x weight", is_mul1000)
     for path, label, via in (
             ("simplicity::analysis::<impl std::convert::From<simplicity::analysis::Cost> for simplicity::bitcoin::Weight>::from",
@@ -402,8 +508,9 @@ def run(ctx, rep):
             rep.violation("C19.table", "piece:%d..%d:form" % (lo2, hi2), "for deficits %d..=%d the padding length is `%s`, which is not a constant or the deficit "
                           "minus a constant (saturating or not): not decided" % (lo2, hi2, expr.canon(n)[:100]), gp.where())
             continue
-        tbl.append((lo2, hi2, fmv))
-    tbl.sort()
+        if (lo2, hi2, fmv) not in tbl:      # several paths (debug assertions, ...) through one arm
+            tbl.append((lo2, hi2, fmv))
+    tbl.sort(key=lambda x: (x[0], x[1]))
     cur = 1
     for lo, hi, fmv in tbl:
         if lo != cur:
@@ -415,7 +522,7 @@ def run(ctx, rep):
     rep.count("padding_table_pieces", len(tbl))
     n_checked = 0
     for lo, hi, fmv in tbl:
-        key = "deficit %d..=%s: padding = %s" % (lo, hi if hi < MAX_DEFICIT else "max", {"const": "%d", "sat": "max(d - %d, 0)", "sub": "d - %d"}[fmv[0]] % fmv[1])
+        key = "deficit %d..=%s: padding = %s" % (lo, hi if hi < MAX_DEFICIT else "max", show_form(fmv))
         bad = None
         top = min(hi, 70000)
         for d in range(lo, top + 1):
@@ -433,10 +540,11 @@ def run(ctx, rep):
                 break
         if bad is None and hi > 70000:
             # unbounded piece: lengths above 65536 all use the 5-byte CompactSize; L = d - k + 1 must satisfy 5 + L >= d > 5 + (L - 1)
-            if fmv[0] not in ("sub", "sat") or fmv[1] != 6:
+            tail = fmv[1] if fmv[0] == "max" and fmv[2] <= 70001 - 6 else fmv     # max(d - 6, c) is d - 6 once d - 6 >= c
+            if tail[0] not in ("sub", "sat") or tail[1] != 6:
                 d = max(lo, 70001)
                 bad = (d, "for large deficits the annex must have deficit - 5 bytes (5-byte CompactSize), i.e. padding = deficit - 6; the table has %s"
-                       % ({"const": "the constant %d", "sat": "max(d - %d, 0)", "sub": "d - %d"}[fmv[0]] % fmv[1]))
+                       % show_form(fmv))
             elif MAX_DEFICIT - 5 >= 2 ** 32:
                 bad = (MAX_DEFICIT, "9-byte CompactSize reachable")
         if bad:
